@@ -6,7 +6,7 @@ EXTENDS Clifford, TraceBase, FiniteSets
 
 WFL(ws) == \A j \in 1..Len(ws) : WellFormed(ws[j], Len(ws[j]) - 1)
 WF == /\ Has("ins") => WFL(Rec.ins)
-      /\ Has("outs") => WFL(Rec.outs) /\ (Has("ins") => Len(Rec.outs) = Len(Rec.ins))
+      /\ Has("outs") => WFL(Rec.outs) /\ (Rec.op \in {"rot", "transform", "rotseq"} => Len(Rec.outs) = Len(Rec.ins))
       /\ Has("ret") /\ Rec.op \in {"rotmap", "inverse", "compose", "identity", "embed", "gate"} => WFL(Rec.ret)
 
 \* ---- C02
